@@ -26,6 +26,7 @@ import (
 	"k8s.io/apimachinery/pkg/types"
 
 	"github.com/koordinator-sh/koordinator/apis/extension"
+	schedulingv1alpha1 "github.com/koordinator-sh/koordinator/apis/scheduling/v1alpha1"
 	schedulingconfig "github.com/koordinator-sh/koordinator/pkg/scheduler/apis/config"
 	"github.com/koordinator-sh/koordinator/pkg/scheduler/frameworkext/topologymanager"
 	"github.com/koordinator-sh/koordinator/pkg/util/bitmask"
@@ -140,7 +141,8 @@ type c06World struct {
 	node     *corev1.Node
 	maxRef   int
 	reserved cpuset.CPUSet
-	c19Extra []vu.Ev // C19: further outcomes of the same rebuild ("reprobe" events), emitted right after the restart event
+	c19Extra []vu.Ev                                    // C19: further outcomes of the same rebuild ("reprobe" events), emitted right after the restart event
+	c19Resv  map[string]*schedulingv1alpha1.Reservation // C19: the allocations of the last restart that a Reservation object carries
 }
 
 func c06Topology(dims []int) *CPUTopology {
